@@ -137,7 +137,7 @@ const HARNESSES: &[HarnessDef] = &[
     HarnessDef { name: "crdt_orset", entry: "replication::crdt_dst::ORSetDSTHarness; run(500), sync_all, check_convergence", presets: &["new3", "calm", "moderate", "chaos"], seeds: (8, 64) },
     HarnessDef { name: "crdt_vectorclock", entry: "replication::crdt_dst::VectorClockDSTHarness; run(500), sync_all, check_convergence", presets: &["new3", "calm", "moderate", "chaos"], seeds: (8, 64) },
     HarnessDef { name: "dst_simulation", entry: "simulator::DSTSimulation::with_config(DSTConfig::<preset>(seed)); step() x <=2000 until max_time, finalize() (= run_operations)", presets: &["new", "calm", "chaos"], seeds: (8, 64) },
-    HarnessDef { name: "redis_dst", entry: "simulator::dst_integration::RedisDSTSimulation; run(400)", presets: &["zipfian", "uniform", "zipfian_calm", "zipfian_chaos"], seeds: (8, 64) },
+    HarnessDef { name: "redis_dst", entry: "simulator::dst_integration::RedisDSTSimulation; run(400)", presets: &["zipfian", "zipfian_skew15", "uniform", "zipfian_calm", "zipfian_chaos"], seeds: (8, 64) },
     HarnessDef { name: "multi_node", entry: "simulator::MultiNodeSimulation driven by a fixed script that draws from sim.rng (SET/DEL/GET, gossip rounds, partitions, heal, converge)", presets: &["broadcast3", "broadcast5_lossy", "partitioned5_rf3", "no_anti_entropy3"], seeds: (8, 64) },
     HarnessDef { name: "partition", entry: "simulator::partition_tests::run_partition_test with PartitionConfig::<preset>", presets: &["isolate_node", "split_brain", "asymmetric", "ring"], seeds: (8, 64) },
     HarnessDef { name: "scenario", entry: "simulator::ScenarioBuilder / SimulationHarness with a fixed script", presets: &["plain", "buggify", "buggify_eviction"], seeds: (8, 64) },
@@ -395,6 +395,8 @@ fn run_harness(h: &str, preset: &str, seed: u64) -> Result<Fields, String> {
             use redis_sim::simulator::dst_integration::RedisDSTSimulation as S;
             let mut sim = match preset {
                 "zipfian" => S::new(seed, 5),
+                // the same key space as the default preset with another skew
+                "zipfian_skew15" => S::with_key_distribution(seed, 5, redis_sim::simulator::dst_integration::KeyDistribution::Zipfian { num_keys: 1000, skew: 1.5 }),
                 "uniform" => S::new_uniform(seed, 5, 100),
                 "zipfian_calm" => S::new(seed, 5).with_faults(FaultConfig::calm()),
                 "zipfian_chaos" => S::new(seed, 5).with_faults(FaultConfig::chaos()),
@@ -809,6 +811,17 @@ fn child_main(a: &[String]) -> ! {
     emit("R1", &r1);
     let r2 = run_caught(h, p, seed);
     emit("R2", &r2);
+    // R4: a complete run of ANOTHER preset of the same harness family happens first on this thread; what it leaves
+    // behind (caches, counters, thread-locals) must not change this run
+    if let Some(def) = HARNESSES.iter().find(|d| d.name == h) {
+        if def.presets.len() > 1 {
+            let i = def.presets.iter().position(|x| *x == p).unwrap_or(0);
+            let other = def.presets[(i + 1) % def.presets.len()];
+            let _ = run_caught(h, other, seed);
+            let r4 = run_caught(h, p, seed);
+            emit("R4", &r4);
+        }
+    }
     if let Some(older) = make_bystander(h, p, seed) {
         BYSTANDER.with(|b| *b.borrow_mut() = Some(older));
         let r3 = run_caught(h, p, seed);
@@ -914,6 +927,8 @@ struct ChildOut {
     /// third run in the same process, started while an older instance of the same simulation family (another preset)
     /// is still alive; the older one is dropped right after the new one was built (`sim = Sim::new(..)` over a live sim)
     r3: Fields,
+    /// fourth run in the same process, right after a complete run of the next preset of the same harness family
+    r4: Fields,
     meta: BTreeMap<String, String>,
 }
 
@@ -983,7 +998,7 @@ fn run_child(shim: &PathBuf, args: &[String], env: &Env) -> ChildOut {
             String::from_utf8_lossy(&out.stderr).chars().take(600).collect::<String>()
         ));
     }
-    let mut c = ChildOut { r1: Vec::new(), r2: Vec::new(), r3: Vec::new(), meta: BTreeMap::new() };
+    let mut c = ChildOut { r1: Vec::new(), r2: Vec::new(), r3: Vec::new(), r4: Vec::new(), meta: BTreeMap::new() };
     for l in text.lines() {
         let mut it = l.splitn(3, '\t');
         let (tag, k, v) = (it.next().unwrap_or(""), it.next().unwrap_or(""), it.next().unwrap_or(""));
@@ -991,6 +1006,7 @@ fn run_child(shim: &PathBuf, args: &[String], env: &Env) -> ChildOut {
             "R1" => c.r1.push((k.to_string(), wire_unesc(v))),
             "R2" => c.r2.push((k.to_string(), wire_unesc(v))),
             "R3" => c.r3.push((k.to_string(), wire_unesc(v))),
+            "R4" => c.r4.push((k.to_string(), wire_unesc(v))),
             "M" => {
                 c.meta.insert(k.to_string(), v.to_string());
             }
@@ -1125,6 +1141,13 @@ fn compare(outs: &[(Env, ChildOut)]) -> Vec<Finding> {
                 break;
             }
         }
+        // predecessor: fourth run, after a complete run of another preset
+        for (e, c) in outs {
+            if !c.r4.is_empty() && get(&c.r1, f) != get(&c.r4, f) {
+                per_dim.entry("after-another-preset").or_default().push((f.clone(), e.clone(), e.clone(), 4));
+                break;
+            }
+        }
         // overlapping lifetimes: third run, started next to a living older instance of another preset
         for (e, c) in outs {
             if !c.r3.is_empty() && get(&c.r1, f) != get(&c.r3, f) {
@@ -1138,7 +1161,7 @@ fn compare(outs: &[(Env, ChildOut)]) -> Vec<Finding> {
         let (field, a, b, run_b) = v[0].clone();
         let ca = &outs.iter().find(|(e, _)| *e == a).unwrap().1;
         let cb = &outs.iter().find(|(e, _)| *e == b).unwrap().1;
-        let vb = if run_b == 3 { get(&cb.r3, &field) } else if run_b == 2 { get(&cb.r2, &field) } else { get(&cb.r1, &field) };
+        let vb = if run_b == 4 { get(&cb.r4, &field) } else if run_b == 3 { get(&cb.r3, &field) } else if run_b == 2 { get(&cb.r2, &field) } else { get(&cb.r1, &field) };
         out.push(Finding {
             dim,
             diff: first_diff(get(&ca.r1, &field), vb),
@@ -1271,7 +1294,7 @@ fn main() {
         let ca = run_child(&shim, &cargs, &ea);
         let cb = run_child(&shim, &cargs, &eb);
         let va = get(&ca.r1, &field);
-        let vb = if run_b == 3 { get(&cb.r3, &field) } else if run_b == 2 { get(&cb.r2, &field) } else { get(&cb.r1, &field) };
+        let vb = if run_b == 4 { get(&cb.r4, &field) } else if run_b == 3 { get(&cb.r3, &field) } else if run_b == 2 { get(&cb.r2, &field) } else { get(&cb.r1, &field) };
         println!("{h}/{p} seed {seed}: field `{field}` of run 1 under [{}] vs run {run_b} under [{}]", ea.label(), eb.label());
         if va != vb {
             println!("{}", first_diff(va, vb));
